@@ -379,6 +379,25 @@ Print Assumptions cg_step_is_line_minimiser_R.
 Example cg_step_is_line_minimiser_R_nonvacuous : @LinOp AR 2 (@sp_mul AR exr_s) /\ @SymOp AR 2 (@sp_mul AR exr_s) /\ PosSemi 2 (@sp_mul AR exr_s).
 Proof. destruct exr_spd_hyps as (_ & _ & _ & _ & H1 & H2 & H3). split; auto. split; auto. now apply PosDef_PosSemi. Qed.
 
+(* the classical optimality of CG: at every state of a run the iterate is the A-norm-best point of x0 + span(p_0 .. p_{k-1}) -- no linear
+   combination w of the search directions used so far (in_span n Ps w) improves the error: |xs - x_k|_A <= |xs - (x_k + w)|_A *)
+Theorem cg_krylov_optimal_R : forall n (mulA : list R -> res (list R)), @LinOp AR n mulA -> @SymOp AR n mulA ->
+  forall s0 i s Rs Ps (b xs w : list R),
+  PosSemi n mulA -> length xs = n -> length b = n -> mulA xs = Ok b ->
+  @cg_state_inv SAR n mulA s0 i s Rs Ps -> @tracks SAR mulA b (cg_x s) (cg_r s) ->
+  in_span n Ps w ->
+  (@anorm2 SAR mulA (@zipw AR Rminus xs (cg_x s)) <= @anorm2 SAR mulA (@zipw AR Rminus xs (@zipw AR Rplus (cg_x s) w)))%R.
+Proof. intros n mulA LO SYM s0 i s Rs Ps b xs w. exact (cg_krylov_optimal_R n mulA LO SYM s0 i s Rs Ps b xs w). Qed.
+Check cg_krylov_optimal_R : forall n (mulA : list R -> res (list R)), @LinOp AR n mulA -> @SymOp AR n mulA ->
+  forall s0 i s Rs Ps (b xs w : list R),
+  PosSemi n mulA -> length xs = n -> length b = n -> mulA xs = Ok b ->
+  @cg_state_inv SAR n mulA s0 i s Rs Ps -> @tracks SAR mulA b (cg_x s) (cg_r s) ->
+  in_span n Ps w ->
+  (@anorm2 SAR mulA (@zipw AR Rminus xs (cg_x s)) <= @anorm2 SAR mulA (@zipw AR Rminus xs (@zipw AR Rplus (cg_x s) w)))%R.
+Print Assumptions cg_krylov_optimal_R.
+Example cg_krylov_optimal_R_nonvacuous : @LinOp AR 2 (@sp_mul AR exr_s) /\ @SymOp AR 2 (@sp_mul AR exr_s) /\ PosSemi 2 (@sp_mul AR exr_s).
+Proof. destruct exr_spd_hyps as (_ & _ & _ & _ & H1 & H2 & H3). split; auto. split; auto. now apply PosDef_PosSemi. Qed.
+
 (* ... hence along the whole run: whatever solve_cg returns -- Ok or Err, any budget, any tol -- the error of the returned x is not larger
    in the A-norm than the error of the guess ("never corrupt a correct x", quantitatively, in exact arithmetic) *)
 Theorem cg_error_monotone_R : forall n (mulA : list R -> res (list R)), @LinOp AR n mulA -> @SymOp AR n mulA ->
